@@ -17,6 +17,8 @@ const char *__asan_default_options(void) { return "quarantine_size_mb=4:thread_l
 #include <stdio.h>
 #include <unistd.h>
 #include <fcntl.h>
+#include <poll.h>
+#include "event2/thread.h"
 
 #define ONCE(f) (!(f)++)
 #define M31 0x7fffffffu
@@ -54,8 +56,10 @@ static void check_range(uint32_t s, int32_t top, struct rrep *rp)
 
 /* ---- bounds */
 static int32_t TOPLIST[6000]; static int NTOP;
-static const int32_t TOPS[] = { 1, 2, 3, 7, 10, 1000, 1024, 65537, 0x3fffffff, 0x40000000, 0x40000001, 0x7ffffffe, 0x7fffffff };
-#define NTOPS ((int)(sizeof TOPS / sizeof TOPS[0]))
+static const int32_t TOPS[] = { 1, 2, 3, 7, 10, 1000, 1024, 65537, 0x3fffffff, 0x40000000, 0x40000001, 0x7ffffffe, 0x7fffffff,
+	/* -P moretops=1 (thorough): */ 4, 5, 6, 8, 64, 100, 255, 4096, 65535, 65536, 1000000, 0x00ffffff, 0x01000001, 1000000000, 0x2aaaaaaa, 0x2aaaaaab, 0x55555555, 0x55555556, 0x60000000, 0x7fffff00,
+	0x20000000, 0x20000001, 0x1fffffff, 0x33333333, 0x6fffffff, 0x7ffffffd };
+static int NTOPS = 13;
 static void build_tops(void)
 {
 	if (NTOP) return;
@@ -167,6 +171,55 @@ static void site_backend(const char *method, const char *avoid1, const char *avo
 	}
 }
 
+/* poll_dispatch on a base with locking: the fd table is snapshotted, the lock released and poll() called; another
+ * thread may add a descriptor meanwhile.  The wrapped poll() does exactly that (the lock is free at this point),
+ * so the start index has to be chosen from the snapshot's size, not from the table's new size. */
+static struct event *late_ev; static int add_during_poll;
+int __real_poll(struct pollfd *fds, nfds_t n, int timeout);
+int __wrap_poll(struct pollfd *fds, nfds_t n, int timeout)
+{
+	if (add_during_poll && late_ev) { add_during_poll = 0; event_add(late_ev, NULL); }
+	return __real_poll(fds, n, timeout);
+}
+static void site_poll_concurrent_add(uint64_t *cnt)
+{
+	int bad = 0;
+	evthread_use_pthreads();
+	for (int n = 1; n <= 5; n++) {
+		struct event_config *cfg = event_config_new();
+		event_config_avoid_method(cfg, "epoll"); event_config_avoid_method(cfg, "select");
+		struct event_base *base = event_base_new_with_config(cfg);
+		event_config_free(cfg);
+		if (!base || strcmp(event_base_get_method(base), "poll")) { mc_fail("harness:backend", "wanted poll"); return; }
+		int p[6][2], q[2]; struct event *ev[6];
+		for (int i = 0; i < n; i++) { if (pipe(p[i])) { mc_fail("harness:pipe", "pipe"); return; } ev[i] = event_new(base, p[i][0], EV_READ | EV_PERSIST, rd_cb, (void *)(intptr_t)i); event_add(ev[i], NULL); }
+		if (pipe(q)) { mc_fail("harness:pipe", "pipe"); return; }
+		late_ev = event_new(base, q[0], EV_READ | EV_PERSIST, rd_cb, (void *)(intptr_t)15);
+		for (unsigned a = 0; a < 300; a++) {
+			/* states for which a choice among n+1 would give n (the out-of-snapshot index), and spread states */
+			uint32_t div1 = M31 / (uint32_t)(n + 1);
+			uint32_t s = a < 60 ? lcg_prev((uint32_t)(((uint64_t)n * div1 + (a % 30) * (div1 / 31)) & M31)) : (uint32_t)((a * 2654435761u) & M31);
+			base->weakrand_seed.seed = s;
+			memset(fired, 0, sizeof fired); nfired = 0;
+			for (int i = 0; i < n; i++) (void)!write(p[i][1], "x", 1);
+			add_during_poll = 1;
+			event_base_loop(base, EVLOOP_NONBLOCK);
+			(*cnt)++;
+			int ok = nfired == n;
+			for (int i = 0; i < n; i++) ok &= fired[i] == 1;
+			for (int i = 1; ok && i < n; i++) ok &= order[i] == (order[i - 1] + 1) % n;
+			if (!ok && ONCE(bad)) mc_fail("C46/callsite/poll-start-index-after-concurrent-add",
+			    "%d ready descriptors, one more added while poll() ran, generator state %u: %d callbacks ran (not every ready descriptor once in rotated order)", n, s, nfired);
+			event_del(late_ev);
+			/* drain what a failed pass left behind so that the next round starts clean */
+			for (int i = 0; i < n; i++) if (!fired[i]) { char c; (void)!read(p[i][0], &c, 1); }
+		}
+		event_free(late_ev); late_ev = NULL; close(q[0]); close(q[1]);
+		for (int i = 0; i < n; i++) { event_free(ev[i]); close(p[i][0]); close(p[i][1]); }
+		event_base_free(base);
+	}
+}
+
 static void site_group(uint64_t *cnt)
 {
 	int bad = 0;
@@ -201,10 +254,11 @@ static void item_site(uint64_t idx)
 	event_set_log_callback(quiet);
 	if (idx == 0) site_backend("poll", "epoll", "select", &cnt);
 	else if (idx == 1) site_backend("select", "epoll", "poll", &cnt);
-	else site_group(&cnt);
+	else if (idx == 2) site_group(&cnt);
+	else site_poll_concurrent_add(&cnt);
 	MC_COUNTN("callsite_choices", cnt);
 	mc_nontrivial(0x3000000 + idx);
-	mc_observe("call site %s: %llu choices with the generator state set beforehand", idx == 0 ? "poll_dispatch" : idx == 1 ? "select_dispatch" : "bev_group_random_element_", (unsigned long long)cnt);
+	mc_observe("call site %s: %llu choices with the generator state set beforehand", idx == 0 ? "poll_dispatch" : idx == 1 ? "select_dispatch" : idx == 2 ? "bev_group_random_element_" : "poll_dispatch with a descriptor added during poll()", (unsigned long long)cnt);
 }
 
 /* ------------------------------------------------------------------ */
@@ -222,12 +276,13 @@ int main(int argc, char **argv)
 	for (int i = 1; i + 1 < argc; i++) if (!strcmp(argv[i], "-P")) {
 		if (!strncmp(argv[i + 1], "statebits=", 10)) STATEBITS = atoi(argv[i + 1] + 10);
 		if (!strncmp(argv[i + 1], "blkbits=", 8)) BLKBITS = atoi(argv[i + 1] + 8);
+		if (!strcmp(argv[i + 1], "moretops=1")) NTOPS = (int)(sizeof TOPS / sizeof TOPS[0]);
 	}
 	/* inverse of the multiplier modulo 2^31 by Newton iteration */
 	{ uint64_t a = 1103515245u, x = a; for (int k = 0; k < 6; k++) x = (x * (2 - a * x)) & M31; AINV = (uint32_t)x;
 	  if (((uint64_t)AINV * a & M31) != 1 || lcg_prev(lcg_next(12345678)) != 12345678) { fprintf(stderr, "c46: bad inverse\n"); return 2; } }
 	build_tops();
 	NBLK = 1ull << (STATEBITS - BLKBITS);
-	struct mc_config cfg = { .property = "C46", .n_items = NTOP + NBLK + NSEC + 3, .item = item };
+	struct mc_config cfg = { .property = "C46", .n_items = NTOP + NBLK + NSEC + 4, .item = item };
 	return mc_main(argc, argv, &cfg);
 }
